@@ -17,6 +17,7 @@
 package localstore
 
 import (
+	"bytes"
 	"errors"
 	"time"
 
@@ -254,18 +255,27 @@ func (db *DB) collectGarbage() (collectedCount uint64, done bool, err error) {
 		currentCollectedCount++
 	}
 
-	// if gcIndex missing, we should set gcSize to zero.
-	if len(recycledItems) == 0 {
-		// force gc clean
-		currentCollectedCount = gcSize
-	}
-
+	// recount gcSize from the files that stay in the gc index: the number of
+	// chunks deleted above differs from the cached-chunk counts of the evicted
+	// files whenever chunks are shared with other files, so subtracting it
+	// would let gcSize drift away from the gc index.
 	currentSize := uint64(0)
-	if currentCollectedCount <= gcSize {
-		currentSize = gcSize - currentCollectedCount
+	err = db.gcIndex.Iterate(func(item shed.Item) (stop bool, err error) {
+		for _, recycled := range recycledItems {
+			if recycled.AccessTimestamp == item.AccessTimestamp && recycled.BinID == item.BinID &&
+				bytes.Equal(recycled.Address, item.Address) {
+				return false, nil
+			}
+		}
+		currentSize += item.GCounter
+		return false, nil
+	}, nil)
+	if err != nil {
+		return 0, false, err
 	}
 
-	if currentSize > target {
+	// another run is only useful if this one was able to evict something
+	if currentSize > target && len(recycledItems) > 0 {
 		done = false
 	}
 
